@@ -288,7 +288,7 @@ func iteVal(c *Term, a, b *Val) *Val {
 		return a
 	}
 	if a.K != b.K {
-		panic(fmt.Sprintf("iteVal kind mismatch %d %d (%v / %v)", a.K, b.K, a.T, b.T))
+		panic(unsupported{fmt.Sprintf("value kind mismatch at a join (%v / %v)", a.T, b.T)})
 	}
 	switch a.K {
 	case KStruct, KTuple:
@@ -304,7 +304,7 @@ func iteVal(c *Term, a, b *Val) *Val {
 			if a.Cell == b.Cell && fmt.Sprint(a.CPath) == fmt.Sprint(b.CPath) && a.Idx == b.Idx {
 				return a
 			}
-			panic("iteVal: merging distinct cell pointers")
+			panic(unsupported{"merging distinct cell pointers at a join"})
 		}
 		if a.Root != b.Root || a.Path != b.Path {
 			// nil pointers take the shape of the other side
@@ -313,7 +313,7 @@ func iteVal(c *Term, a, b *Val) *Val {
 			} else if b.X.IsConst() && b.X.Val.Sign() == 0 && b.Idx == nil {
 				b = &Val{K: KPtr, T: a.T, X: b.X, Root: a.Root, Path: a.Path, Idx: a.Idx}
 			} else {
-				panic(fmt.Sprintf("iteVal: merging pointers with different shapes %s.%s / %s.%s", a.Root, a.Path, b.Root, b.Path))
+				panic(unsupported{fmt.Sprintf("merging pointers with different shapes at a join: %s.%s / %s.%s", a.Root, a.Path, b.Root, b.Path)})
 			}
 		}
 		v := &Val{K: KPtr, T: a.T, X: Ite(c, a.X, b.X), Root: a.Root, Path: a.Path}
